@@ -1,6 +1,7 @@
 import Pms.Props.C07
 import Pms.Props.C07Sq
 import Pms.Props.C07Rot
+import Pms.Props.C07Pair
 
 #print axioms Pms.Sym.C07_translation_disp
 #print axioms Pms.Sym.C07_translation_gr
@@ -14,7 +15,6 @@ import Pms.Props.C07Rot
 #print axioms Pms.Sym.C07_dilation_gr
 #print axioms Pms.Sym.C07_rot_dot
 #print axioms Pms.Sym.C07_translation_sq_spec
-#print axioms Pms.Sym.mode_relabel
 #print axioms Pms.Sym.C07_relabel_sq
 #print axioms Pms.Sym.C07_species_swap_sq
 #print axioms Pms.Sym.C07_axis_perm_sq
@@ -24,11 +24,19 @@ import Pms.Props.C07Rot
 #print axioms Pms.Sym.C07_rot_open_disp
 #print axioms Pms.Sym.C07_rot_tetra
 #print axioms Pms.Sym.C07_rot_pr
-#print axioms Pms.Sym.gyr_rotate
 #print axioms Pms.Sym.C07_rot_gyration
-#print axioms Pms.Sym.matVec_permMatrix
 #print axioms Pms.Sym.C07_axis_perm_ortho
 #print axioms Pms.Sym.C07_axis_perm_rotinv
 #print axioms Pms.Sym.C07_rot_psi2d
-#print axioms Pms.Sym.qlm_sum_kernel
 #print axioms Pms.Sym.C07_rot_ql_partial
+#print axioms Pms.Sym.C07_translation_models
+#print axioms Pms.Sym.C07_image_models
+#print axioms Pms.Sym.C07_translation_neigh
+#print axioms Pms.Sym.C07_image_neigh
+#print axioms Pms.Sym.C07_axes_rot_dist2
+#print axioms Pms.Sym.C07_relabel_neigh
+#print axioms Pms.Sym.C07_relabel_s2
+#print axioms Pms.Sym.C07_relabel_tetra
+#print axioms Pms.Sym.C07_translation_hess
+#print axioms Pms.Sym.C07_relabel_hess
+#print axioms Pms.Sym.C07_translation_dyn
